@@ -738,7 +738,7 @@ class World:
     return res
 
   def call(self, sel, pargs, ckw):
-    fn = self.callable_for(sel)
+    fn = None if self.desc[sel]['kind'] == 'meth' else self.callable_for(sel)
     args = [self.to_real(v) for v in pargs]
     kwargs = {k: self.to_real(v) for k, v in sorted(ckw)}
     self.evals = []
@@ -748,7 +748,11 @@ class World:
     try:
       self.calling = sel
       try:
-        r = fn(*args, **kwargs)
+        if self.desc[sel]['kind'] == 'meth':
+          inst = self.callable_for('.'.join(sel.split('.')[:-1]))()       # the instance, built by the class's configurable
+          r = getattr(inst, sel.split('.')[-1])(*args, **kwargs)
+        else:
+          r = fn(*args, **kwargs)
       finally:
         self.calling = None
       res['status'] = 'ok'
